@@ -1122,7 +1122,7 @@ Proof.
   intros H. apply escape_lts_bound in H; [|exact Hw]. lia.
 Qed.
 
-Lemma etl_ok : forall fuel csp (s : bytes) c i b written,
+Lemma etl_total : forall fuel csp (s : bytes) c i b written,
   wf_ctx c -> (written <= i)%nat -> (i <= length s)%nat ->
   (i = length s \/ (2 * (length s - i) + phi (c_state c) (hd_error (skipn i s)) <= fuel)%nat) ->
   exists c' ed out, escape_text_loop fuel csp s c i b written = EOk c' ed out /\ wf_ctx c'.
@@ -1178,7 +1178,7 @@ Proof.
   intros Hw. unfold escape_text.
   destruct (csp && match index_of (B "javascript:") s with Some _ => true | None => false end);
     [eexists _, _, _; split; [reflexivity | apply wf_ctx_error]|].
-  apply etl_ok; [exact Hw | lia | lia |].
+  apply etl_total; [exact Hw | lia | lia |].
   right. pose proof (phi_le_2 (c_state c) (hd_error (skipn 0 s))). lia.
 Qed.
 (* ------------------------------------------------------------------ isJsTemplateBalanced *)
